@@ -22,7 +22,7 @@ from ..report import AnalysisError
 ACQ = "inference/gp/acquisition.py"
 OPT = "inference/gp/optimisation.py"
 FLOORS = {"value-form": 4, "objective-siblings": 5, "gradient-is-derivative": 4, "bounds-passed": 3,
-          "ownership": 4, "refit-order": 2,
+          "ownership": 5, "refit-order": 2,
           "tail-guard": 3}
 
 MU, SIG, DMU, DVAR, MUMAX = (R.sym("mu"), R.sym("sig"), R.sym("dmu"), R.sym("dvar"), R.sym("self.mu_max"))
@@ -179,6 +179,22 @@ def run(prog, tier):
         obs.append(struct_ob("ownership", qual(c, ae), not hits,
                              f"the caller's `{p}` is mutated in place: {hits[:2]}", OPT, hits[0][0] if hits else ae.lineno,
                              detail=f"param {p}"))
+
+    # every method of the acquisition classes and the optimiser leaves its array arguments alone
+    for cls_ in [prog.cls("AcquisitionFunction")] + prog.subclasses("AcquisitionFunction") + [go]:
+        for mname, mfn in cls_.methods.items():
+            if mname in ("__init__", "add_evaluation") and cls_ is go:
+                continue
+            sm = own.summary(cls_.module, cls_, mfn)
+            mparams = [a.arg for a in mfn.args.args[1:]]
+            for i, hits in sm.mutates_params.items():
+                p_ = mparams[i] if i < len(mparams) else f"#{i}"
+                obs.append(struct_ob("ownership", qual(cls_, mfn), False,
+                                     f"the caller's `{p_}` is mutated in place: {hits[:2]} (an array argument such as the search bounds "
+                                     f"would change between calls)", cls_.module.relpath, hits[0][0], detail=f"param {p_}"))
+    sp_sum = own.summary(ac.module, ac, sp)
+    obs.append(struct_ob("ownership", qual(ac, sp) + "[bounds]", not sp_sum.mutates_params,
+                         f"starting_positions mutates its bounds argument: {sp_sum.mutates_params}", ACQ, sp.lineno, detail="param bounds"))
 
     # ---------------------------------------------------------------- refit order
     body = ae.body
